@@ -1,7 +1,11 @@
 (* Executable statements of C02 / C03 on a trace of the IMPLEMENTATION, using only the call and
    return markers and the returned values (not the atomic steps).  Observation values in the
-   generated scenarios are distinct powers of two, so the set S a snapshot describes can be
-   decoded from its sum: S = { v | bit (log2 v) of sum is set }. *)
+   generated scenarios are +-2^k with pairwise distinct exponents k < 63 (the sign of each
+   exponent is fixed by the scenario: the value list of the calls invoked so far), so the set S a
+   snapshot describes can be decoded from its sum = sum over S of sign_k 2^k: going up from
+   exponent 0, the lowest set bit of the residue names the next member (subset sums of such
+   values are unique: two different subsets differ first at some exponent k, by +-2^k modulo
+   2^(k+1)).  A decoded set is represented by its mask = sum of |v| over S. *)
 Require Import PV.Base.Prelude PV.Base.F64 PV.Model.Conc PV.Model.HistExec.
 From Coq Require Import ZArith Lia.
 Open Scope Z_scope.
@@ -18,12 +22,28 @@ Record sst := { s_obs : list ocall;           (* all observe / flush calls invok
                 s_reads : list (nat * bool);  (* pending scount / ssum: thread, quiet flag *)
                 s_ok : bool }.
 
-Definition member (sum v : Z) : bool := Z.testbit sum (Z.log2 v).
+Definition member (mask v : Z) : bool := Z.testbit mask (Z.log2 (Z.abs v)).
 Definition all_in (sum : Z) (vs : list Z) : bool := forallb (member sum) vs.
 Definition none_in (sum : Z) (vs : list Z) : bool := forallb (fun v => negb (member sum v)) vs.
 Definition count_in (sum : Z) (p : Z -> bool) (obs : list ocall) : Z :=
   fold_left (fun a oc => fold_left (fun a v => if member sum v && p v then a + 1 else a) (oc_vals oc) a) obs 0.
-Definition total_mask (obs : list ocall) : Z := fold_left (fun a oc => fold_left Z.add (oc_vals oc) a) obs 0.
+Definition total_mask (obs : list ocall) : Z := fold_left (fun a oc => fold_left (fun a v => a + Z.abs v) (oc_vals oc) a) obs 0.
+Definition total_sum (obs : list ocall) : Z := fold_left (fun a oc => fold_left Z.add (oc_vals oc) a) obs 0.
+Definition all_vals (obs : list ocall) : list Z := flat_map oc_vals obs.
+
+(* decode a reported sum into the mask of the set it describes, None if it is no subset sum of the invoked values *)
+Fixpoint decode_from (fuel : nat) (k : Z) (vals : list Z) (resid mask : Z) : option Z :=
+  match fuel with
+  | O => if resid =? 0 then Some mask else None
+  | S f =>
+      if Z.testbit resid k then
+        match find (fun v => Z.abs v =? 2 ^ k) vals with
+        | Some v => decode_from f (k + 1) vals (resid - v) (mask + 2 ^ k)
+        | None => None
+        end
+      else decode_from f (k + 1) vals resid mask
+  end.
+Definition decode (obs : list ocall) (sum : Z) : option Z := decode_from 64 0 (all_vals obs) sum 0.
 
 Fixpoint zvals (bs : list N) : option (list Z) :=
   match bs with
@@ -50,7 +70,7 @@ Variable bounds : list Z.
 
 Definition check_snapshot (s : sst) (cc : ccall) (cnt sum : Z) (bks : list Z) : bool :=
   let obs := s_obs s in
-  (* S only contains invoked observations; count, buckets *)
+  (* S (given by its mask, decoded from the sum) only contains invoked observations; count, buckets *)
   (Z.land sum (Z.lnot (total_mask obs)) =? 0)
   && (cnt =? count_in sum (fun _ => true) obs)
   && (Nat.eqb (length bks) (length bounds))
@@ -103,10 +123,10 @@ Definition sstep (s : sst) (e : event) : sst :=
       let pend := remove_nat t (s_pending s) in
       match r with
       | RSnap cnt sum bks =>
-          match find (fun cc => Nat.eqb (cc_t cc) t) (s_col s), z_of_bits sum with
-          | Some cc, Some sumz =>
-              {| s_obs := s_obs s; s_col := filter (fun cc => negb (Nat.eqb (cc_t cc) t)) (s_col s); s_sums := sumz :: s_sums s; s_pending := pend;
-                 s_reads := s_reads s; s_ok := s_ok s && check_snapshot s cc (Z.of_N cnt) sumz (map Z.of_N bks) |}
+          match find (fun cc => Nat.eqb (cc_t cc) t) (s_col s), match z_of_bits sum with Some z => decode (s_obs s) z | None => None end with
+          | Some cc, Some mask =>
+              {| s_obs := s_obs s; s_col := filter (fun cc => negb (Nat.eqb (cc_t cc) t)) (s_col s); s_sums := mask :: s_sums s; s_pending := pend;
+                 s_reads := s_reads s; s_ok := s_ok s && check_snapshot s cc (Z.of_N cnt) mask (map Z.of_N bks) |}
           | _, _ => {| s_obs := s_obs s; s_col := s_col s; s_sums := s_sums s; s_pending := pend; s_reads := s_reads s; s_ok := false |}
           end
       | RVal b =>
@@ -114,7 +134,7 @@ Definition sstep (s : sst) (e : event) : sst :=
           match find (fun r => Nat.eqb (fst r) t) (s_reads s) with
           | Some (_, true) =>
               let okc := Z.of_N b =? count_in (total_mask (s_obs s)) (fun _ => true) (s_obs s) in
-              let oks := match z_of_bits b with Some z => z =? total_mask (s_obs s) | None => false end in
+              let oks := match z_of_bits b with Some z => z =? total_sum (s_obs s) | None => false end in
               {| s_obs := s_obs s; s_col := s_col s; s_sums := s_sums s; s_pending := pend;
                  s_reads := filter (fun r => negb (Nat.eqb (fst r) t)) (s_reads s); s_ok := s_ok s && (okc || oks) |}
           | _ => {| s_obs := s_obs s; s_col := s_col s; s_sums := s_sums s; s_pending := pend;
